@@ -909,3 +909,48 @@ package ro
 //@   alias sub=obs.SubscribeWithContext()
 //@   track obs.*
 //@   ensures [returns-only-after-the-subscription-ended|C06] trace(obs.SubscribeWithContext(ctx, _), sub.Wait())
+
+//@ func ZipWith1$1$1$1
+//@   note onUpdate of Zip2 / ZipWith1: once every queue has a value the heads are popped and emitted as one tuple; the output then completes exactly when a finished source's queue is empty
+//@   props C05 C04
+//@   track destination.*
+//@   ensures [no-tuple-until-every-queue-has-a-value|C05] !(len(old(valueA)) > 0 && len(old(valueB)) > 0) ==> trace()
+//@   ensures [a-tuple-is-emitted-when-every-queue-has-a-value|C05] len(old(valueA)) > 0 && len(old(valueB)) > 0 ==> count(destination.NextWithContext) == 1 && arg(destination.NextWithContext, 0) == ctx
+//@   ensures [pops-exactly-the-heads|C05] len(old(valueA)) > 0 && len(old(valueB)) > 0 ==> len(valueA) == len(old(valueA)) - 1 && len(valueB) == len(old(valueB)) - 1
+//@   ensures [completes-exactly-when-a-finished-queue-is-drained|C05] len(old(valueA)) > 0 && len(old(valueB)) > 0 ==> iff(called(destination.CompleteWithContext), (completedA && len(valueA) == 0) || (completedB && len(valueB) == 0))
+
+//@ func ZipWith2$1$1$1
+//@   note onUpdate of Zip3 / ZipWith2: as ZipWith1, over 3 queues
+//@   props C05 C04
+//@   track destination.*
+//@   ensures [no-tuple-until-every-queue-has-a-value|C05] !(len(old(valueA)) > 0 && len(old(valueB)) > 0 && len(old(valueC)) > 0) ==> trace()
+//@   ensures [a-tuple-is-emitted-when-every-queue-has-a-value|C05] len(old(valueA)) > 0 && len(old(valueB)) > 0 && len(old(valueC)) > 0 ==> count(destination.NextWithContext) == 1 && arg(destination.NextWithContext, 0) == ctx
+//@   ensures [pops-exactly-the-heads|C05] len(old(valueA)) > 0 && len(old(valueB)) > 0 && len(old(valueC)) > 0 ==> len(valueA) == len(old(valueA)) - 1 && len(valueB) == len(old(valueB)) - 1 && len(valueC) == len(old(valueC)) - 1
+//@   ensures [completes-exactly-when-a-finished-queue-is-drained|C05] len(old(valueA)) > 0 && len(old(valueB)) > 0 && len(old(valueC)) > 0 ==> iff(called(destination.CompleteWithContext), (completedA && len(valueA) == 0) || (completedB && len(valueB) == 0) || (completedC && len(valueC) == 0))
+
+//@ func ZipWith3$1$1$1
+//@   note onUpdate of Zip4 / ZipWith3: as ZipWith1, over 4 queues
+//@   props C05 C04
+//@   track destination.*
+//@   ensures [no-tuple-until-every-queue-has-a-value|C05] !(len(old(valueA)) > 0 && len(old(valueB)) > 0 && len(old(valueC)) > 0 && len(old(valueD)) > 0) ==> trace()
+//@   ensures [a-tuple-is-emitted-when-every-queue-has-a-value|C05] len(old(valueA)) > 0 && len(old(valueB)) > 0 && len(old(valueC)) > 0 && len(old(valueD)) > 0 ==> count(destination.NextWithContext) == 1 && arg(destination.NextWithContext, 0) == ctx
+//@   ensures [pops-exactly-the-heads|C05] len(old(valueA)) > 0 && len(old(valueB)) > 0 && len(old(valueC)) > 0 && len(old(valueD)) > 0 ==> len(valueA) == len(old(valueA)) - 1 && len(valueB) == len(old(valueB)) - 1 && len(valueC) == len(old(valueC)) - 1 && len(valueD) == len(old(valueD)) - 1
+//@   ensures [completes-exactly-when-a-finished-queue-is-drained|C05] len(old(valueA)) > 0 && len(old(valueB)) > 0 && len(old(valueC)) > 0 && len(old(valueD)) > 0 ==> iff(called(destination.CompleteWithContext), (completedA && len(valueA) == 0) || (completedB && len(valueB) == 0) || (completedC && len(valueC) == 0) || (completedD && len(valueD) == 0))
+
+//@ func ZipWith4$1$1$1
+//@   note onUpdate of Zip5 / ZipWith4: as ZipWith1, over 5 queues
+//@   props C05 C04
+//@   track destination.*
+//@   ensures [no-tuple-until-every-queue-has-a-value|C05] !(len(old(valueA)) > 0 && len(old(valueB)) > 0 && len(old(valueC)) > 0 && len(old(valueD)) > 0 && len(old(valueE)) > 0) ==> trace()
+//@   ensures [a-tuple-is-emitted-when-every-queue-has-a-value|C05] len(old(valueA)) > 0 && len(old(valueB)) > 0 && len(old(valueC)) > 0 && len(old(valueD)) > 0 && len(old(valueE)) > 0 ==> count(destination.NextWithContext) == 1 && arg(destination.NextWithContext, 0) == ctx
+//@   ensures [pops-exactly-the-heads|C05] len(old(valueA)) > 0 && len(old(valueB)) > 0 && len(old(valueC)) > 0 && len(old(valueD)) > 0 && len(old(valueE)) > 0 ==> len(valueA) == len(old(valueA)) - 1 && len(valueB) == len(old(valueB)) - 1 && len(valueC) == len(old(valueC)) - 1 && len(valueD) == len(old(valueD)) - 1 && len(valueE) == len(old(valueE)) - 1
+//@   ensures [completes-exactly-when-a-finished-queue-is-drained|C05] len(old(valueA)) > 0 && len(old(valueB)) > 0 && len(old(valueC)) > 0 && len(old(valueD)) > 0 && len(old(valueE)) > 0 ==> iff(called(destination.CompleteWithContext), (completedA && len(valueA) == 0) || (completedB && len(valueB) == 0) || (completedC && len(valueC) == 0) || (completedD && len(valueD) == 0) || (completedE && len(valueE) == 0))
+
+//@ func ZipWith5$1$1$1
+//@   note onUpdate of Zip6 / ZipWith5: as ZipWith1, over 6 queues
+//@   props C05 C04
+//@   track destination.*
+//@   ensures [no-tuple-until-every-queue-has-a-value|C05] !(len(old(valueA)) > 0 && len(old(valueB)) > 0 && len(old(valueC)) > 0 && len(old(valueD)) > 0 && len(old(valueE)) > 0 && len(old(valueF)) > 0) ==> trace()
+//@   ensures [a-tuple-is-emitted-when-every-queue-has-a-value|C05] len(old(valueA)) > 0 && len(old(valueB)) > 0 && len(old(valueC)) > 0 && len(old(valueD)) > 0 && len(old(valueE)) > 0 && len(old(valueF)) > 0 ==> count(destination.NextWithContext) == 1 && arg(destination.NextWithContext, 0) == ctx
+//@   ensures [pops-exactly-the-heads|C05] len(old(valueA)) > 0 && len(old(valueB)) > 0 && len(old(valueC)) > 0 && len(old(valueD)) > 0 && len(old(valueE)) > 0 && len(old(valueF)) > 0 ==> len(valueA) == len(old(valueA)) - 1 && len(valueB) == len(old(valueB)) - 1 && len(valueC) == len(old(valueC)) - 1 && len(valueD) == len(old(valueD)) - 1 && len(valueE) == len(old(valueE)) - 1 && len(valueF) == len(old(valueF)) - 1
+//@   ensures [completes-exactly-when-a-finished-queue-is-drained|C05] len(old(valueA)) > 0 && len(old(valueB)) > 0 && len(old(valueC)) > 0 && len(old(valueD)) > 0 && len(old(valueE)) > 0 && len(old(valueF)) > 0 ==> iff(called(destination.CompleteWithContext), (completedA && len(valueA) == 0) || (completedB && len(valueB) == 0) || (completedC && len(valueC) == 0) || (completedD && len(valueD) == 0) || (completedE && len(valueE) == 0) || (completedF && len(valueF) == 0))
